@@ -473,6 +473,72 @@ def rule_operator_tables(F, R, which=('binop', 'countop', 'fixpoint')):
         if not ok:
             R.violation('rsbdd::parser::SymbolicBDD::parse_fixed_point / T / expected keyword', 'T', 'parse_fixed_point(initial) does not expect GFP for initial=true and LFP for initial=false')
 
+def rule_input_text(F, R):
+    """what is tokenised is the whole input, unchanged: tokenize reads its reader with one `read_to_string` into a string that nothing
+    else writes, and the token regex runs over exactly that string (reading line by line drops the separators between the lines)"""
+    from engine_x import root_var, unwrap_pat
+    from engine_e import strip
+    lib = F.lib()
+    fn = PARSER + 'tokenize'
+    t = lib.ithir.get(fn)
+    if t is None:
+        R.violation(fn + ' / T / anchor', 'UNDECIDABLE', 'tokenize not found'); return
+    reader = unwrap_pat(t['params'][0]['pat']).get('var') if t['params'] and 'pat' in t['params'][0] else None
+    reads = [e for e in walk(t['body']) if e['k'] == 'Call' and (callee_name(e) or '').split('::')[-1] in ('read_to_string', 'read_line', 'read', 'read_exact', 'read_until', 'lines', 'read_to_end', 'split', 'bytes', 'fill_buf')
+             and e['args'] and root_var(e['args'][0]) == reader]
+    ok = len(reads) == 1 and (callee_name(reads[0]) or '').split('::')[-1] == 'read_to_string'
+    why = 'the reader is read with %s' % [(callee_name(e) or '').split('::')[-1] for e in reads]
+    if ok:
+        r = reads[0]
+        textvar = root_var(r['args'][1]) if len(r['args']) == 2 else None
+        the_assign = None
+        if textvar is None:
+            # `let src = io::read_to_string(contents)?`: the variable bound to the result
+            for b in walk(t['body']):
+                if b['k'] == 'Block':
+                    for st in b['stmts']:
+                        if st['k'] == 'Let' and st.get('init') is not None and any(x is r for x in walk(st['init'])) and unwrap_pat(st['pat'])['k'] == 'Binding': textvar = unwrap_pat(st['pat'])['var']
+            for e in walk(t['body']):
+                if e['k'] == 'Assign' and any(x is r for x in walk(e['rhs'])) and root_var(e['lhs']) is not None: textvar = root_var(e['lhs']); the_assign = e
+        # local names for the same string: `let src = { let mut text = String::new(); read_to_string(.., &mut text)?; Ok(text) }?` (an inlined helper)
+        names = {textvar} if textvar is not None else set()
+        def value_var(e_):
+            e_ = strip(e_)
+            for _ in range(12):
+                if e_['k'] == 'Block' and e_.get('expr') is not None: e_ = strip(e_['expr'])
+                elif e_['k'] == 'Match' and 'TryDesugar' in str(e_.get('source')) and strip(e_['scrutinee'])['k'] == 'Call' and strip(e_['scrutinee'])['args']: e_ = strip(strip(e_['scrutinee'])['args'][0])
+                elif e_['k'] == 'Adt' and canon(e_['adt']) == 'std::result::Result' and e_['variant'] == 'Ok' and e_['fields']: e_ = strip(e_['fields'][0]['expr'])
+                else: break
+            return e_.get('var') if e_['k'] in ('VarRef', 'UpvarRef') else None
+        grew = True
+        while grew:
+            grew = False
+            for b in walk(t['body']):
+                if b['k'] == 'Block':
+                    for st in b['stmts']:
+                        if st['k'] == 'Let' and st.get('init') is not None and unwrap_pat(st['pat'])['k'] == 'Binding' and value_var(st['init']) in names and unwrap_pat(st['pat'])['var'] not in names:
+                            names.add(unwrap_pat(st['pat'])['var']); grew = True
+        scans = [e for e in walk(t['body']) if e['k'] == 'Call' and (callee_name(e) or '').split('::')[-1] in ('captures_iter', 'find_iter', 'captures', 'find', 'split', 'is_match') and 'regex' in (callee_name(e) or '').lower()]
+        def text_root(x):
+            x = strip(x)
+            while x['k'] == 'Call' and x['args'] and (callee_name(x) or '').split('::')[-1] in ('as_str', 'deref', 'as_ref', 'borrow'): x = strip(x['args'][0])
+            return x.get('var') if x['k'] in ('VarRef', 'UpvarRef') else None
+        ok = textvar is not None and len(scans) == 1 and text_root(scans[0]['args'][1]) in names
+        why = 'the token regex must run over the string that read_to_string filled'
+        if ok:
+            # between the read and the scan the text is not edited: every other use of the variable is a shared borrow
+            for e in walk(t['body']):
+                if e['k'] == 'Borrow' and e.get('mut') and root_var(e['arg']) in names and not any(x is e for x in walk(r)):
+                    ok = False; why = 'the input text is borrowed mutably a second time (edited before it is tokenised)'
+                if e['k'] in ('Assign', 'AssignOp') and root_var(e['lhs']) in names and e is not the_assign: ok = False; why = 'the input text is assigned after it was read'
+            x = strip(scans[0]['args'][1])
+            while x['k'] == 'Call' and x['args']:
+                if (callee_name(x) or '').split('::')[-1] not in ('as_str', 'deref', 'as_ref', 'borrow'):
+                    ok = False; why = 'the text handed to the token regex goes through %s first' % (callee_name(x) or '').split('::')[-1]
+                x = strip(x['args'][0])
+    R.count('T:input-text'); R.obligation(ok, 'T input text')
+    if not ok: R.violation(fn + ' / T / input text', 'T', 'the tokenizer must run over the complete input text: %s' % why, t['span']['loc'] if 'span' in t else None)
+
 def rule_regex(F, R):
     lib = F.lib()
     pat, loc = tokenizer_pattern(lib)
